@@ -409,9 +409,13 @@ class OptionsCheck:
                     case = {"kind": "env", "opts": opts, "version": version,
                             "align": False, "out": outform, "seed": seed,
                             "env": env}
-                    ref = outs["kw"]
+                    # flag route against the configuration routes: both go
+                    # through the command and meet the same environment (the
+                    # keyword route never looks at the working directory and
+                    # is only recorded)
+                    ref = outs["cli"]
                     for route, (st, raw) in outs.items():
-                        if route == "kw":
+                        if route in ("kw", "cli"):
                             continue
                         same = (st == ref[0]) and (
                             st != "ok" or normalise(raw) == normalise(ref[1]))
@@ -419,7 +423,7 @@ class OptionsCheck:
                             += 1
                         if not same:
                             res.violation(
-                                f"C20|{route}|differs-from-keyword-route|"
+                                f"C20|{route}|differs-from-flag-route|"
                                 f"v{version}|{env}|{st}",
                                 dict(case, route=route),
                                 (st, ref[0], raw if st != "ok" else None))
